@@ -314,8 +314,12 @@ def gen_scenario(rng):
             adv = rng.random()
             if adv < 0.35:
                 if is_native:
-                    ch = rng.randrange(5)
+                    ch = rng.randrange(7)
                     key = assets[oi]['native']
+                    if ch == 5:
+                        st['named_amount'] = '0'            # declares nothing, attaches amt
+                    elif ch == 6:
+                        st['named_amount'] = str(amt + rng.choice([1, amt]))   # declares more than attached (coin present, smaller)
                     if ch == 0:
                         st['funds'] = {key: str(max(0, amt - rng.randrange(1, amt + 1)))}
                     elif ch == 1:
@@ -324,7 +328,7 @@ def gen_scenario(rng):
                         st['funds'] = {junk_denom(rng, key): str(amt)}
                     elif ch == 3:
                         st['funds'] = {junk_denom(rng, key): str(amt), key: str(amt // 2)}
-                    else:
+                    elif ch == 4:
                         st['named_idx'] = 1 - oi
                 else:
                     ch = rng.randrange(4)
